@@ -23,17 +23,21 @@
      * shrinking: a variable removed by testShrinkVariable admits no improving feasible first-order step
        at that moment (both problem types); unshrink() restores g = lin - K alpha for ALL variables
        from the edge gradient (given Inv_edge, Inv_grad on the active set, shrunk variables at a bound).
-   NOT proved (kept as monitored + step-wise corresponded on every run): that updateGradientEdge keeps
-   Inv_edge, that flipCoordinates / the shrink loop keep the invariants, the induction over histories
-   WITH shrinking.
-   Full statement wanted (C08_every_history): forall kind shr ops s, Inv s -> wf_run s ops ->
-   Inv (run kind shr s ops) /\ obj s <= obj (run ...); proved: shr = false for both problem kinds
-   (C08_every_history_noshrink for SvmProblem, C08_every_history_noshrink_box for BoxConstrainedProblem).
+     * updateGradientEdge keeps the edge gradient = lin - K (alpha at bounds) over every SMO step of both kinds
+       (C08_smo_step_keeps_edge); flipCoordinates keeps every invariant, the objective and alpha as a function
+       of the ORIGINAL index (C08_flip_preserves); the shrink loop incl. the one-time unshrink (C08_shrink_preserves)
+       and unshrink (C08_unshrink_preserves) keep the full invariant and do not move any variable;
+     * C08_every_history (FULL statement): for both problem kinds, with and without shrinking, every operation
+       history the solver loop can produce (SMO steps on working sets inside the active set, shrink calls with
+       any eps, unshrink calls, in any order) preserves the full invariant (gradient on the active set, box,
+       flags, shrunk variables at a bound, edge gradient, permutation, per-variable data travelling with the
+       variable), never decreases the objective, preserves sum(alpha) for the equality-constrained problem and
+       leaves every variable outside the working sets unchanged.
    COMPARED / MONITORED on every run (tools/c08.py), not proved: the float instantiation of the same
    model agrees with the real solver step by step; invariants re-evaluated on the implementation's
    snapshots with an independent kernel matrix; float drift. *)
 From Coq Require Import QArith List.
-From SharkV Require Import C08Model C08Defs C08Aux C07Proofs C08Proofs C08ProofsBox C08ProofsBoxStep C08ProofsShrink.
+From SharkV Require Import C08Model C08Defs C08Aux C07Proofs C08Proofs C08ProofsBox C08ProofsBoxStep C08ProofsShrink C08ProofsEdge C08ProofsFlip C08ProofsHist.
 Import ListNotations.
 Open Scope Q_scope.
 
@@ -163,3 +167,70 @@ Theorem C08_unshrink_restores : forall (n : nat) (K0 : nat -> nat -> Q), Ksym K0
   lin s' = lin s /\ lo s' = lo s /\ hi s' = hi s /\ fl s' = fl s /\ fu s' = fu s /\ gedge s' = gedge s.
 Proof. exact unshrink_restores. Qed.
 Print Assumptions C08_unshrink_restores.
+
+(* updateGradientEdge keeps the edge gradient consistent over one updateSMO (both kinds; i = j for the box kind) *)
+Theorem C08_smo_step_keeps_edge :
+  forall (n : nat) (K0 : nat -> nat -> Q), Ksym K0 ->
+  forall (kind : bool) (s : qst) (i j : nat), Kok K0 kind ->
+  (i < n)%nat -> (j < n)%nat -> wf_pair kind s i j ->
+  Inv_edge n K0 s -> Inv_flags n s -> Inv_box n s ->
+  Inv_edge n K0 (smo_step qops n K0 kind true s i j).
+Proof. exact smo_step_keeps_edge. Qed.
+Print Assumptions C08_smo_step_keeps_edge.
+
+Theorem C08_flip_preserves :
+  forall (n : nat) (K0 : nat -> nat -> Q) (s : qst) (i j : nat), (i < n)%nat -> (j < n)%nat ->
+  let s' := flip s i j in
+  (Inv_box n s -> Inv_box n s') /\ (Inv_flags n s -> Inv_flags n s') /\ (Inv_edge n K0 s -> Inv_edge n K0 s') /\
+  (Inv_perm n s -> Inv_perm n s') /\ (forall lin0 lo0 hi0, Inv_data n lin0 lo0 hi0 s -> Inv_data n lin0 lo0 hi0 s') /\
+  obj n K0 s' == obj n K0 s /\ sumn n (alpha s') == sumn n (alpha s) /\ (forall p, oalpha n s' p == oalpha n s p) /\
+  ((i < active s)%nat -> (j < active s)%nat -> Inv_grad n K0 s -> Inv_grad n K0 s') /\
+  active s' = active s /\ unshr s' = unshr s.
+Proof. exact flip_preserves. Qed.
+Print Assumptions C08_flip_preserves.
+
+Theorem C08_shrink_preserves :
+  forall (n : nat) (K0 : nat -> nat -> Q), Ksym K0 ->
+  forall (kind : bool) (eps : Q) (s : qst), Inv_core n K0 true s ->
+  let s' := shrink qops n K0 kind true eps s in
+  Inv_core n K0 true s' /\ same_vars n K0 s s'.
+Proof. exact shrink_preserves. Qed.
+Print Assumptions C08_shrink_preserves.
+
+Theorem C08_unshrink_preserves :
+  forall (n : nat) (K0 : nat -> nat -> Q), Ksym K0 ->
+  forall s : qst, Inv_core n K0 true s ->
+  let u := unshrink qops n K0 s in
+  Inv_core n K0 true u /\ Inv_grad_all n K0 u /\ same_vars n K0 s u /\ active u = n /\
+  alpha u = alpha s /\ perm u = perm s /\ lin u = lin s /\ lo u = lo s /\ hi u = hi s /\
+  fl u = fl s /\ fu u = fu s /\ gedge u = gedge s.
+Proof. exact unshrink_preserves. Qed.
+Print Assumptions C08_unshrink_preserves.
+
+(* the full statement: every history, with or without shrinking, both problem kinds *)
+Theorem C08_every_history :
+  forall (n : nat) (K0 : nat -> nat -> Q), Ksym K0 ->
+  forall kind : bool, Kok K0 kind ->
+  forall (shr : bool) (lin0 lo0 hi0 : nat -> Q) (ops : list (op Q)) (s : qst),
+  Inv_full n K0 shr lin0 lo0 hi0 s -> wf_runF n K0 kind shr s ops ->
+  let s' := runQ n K0 kind shr s ops in
+  Inv_full n K0 shr lin0 lo0 hi0 s' /\ obj n K0 s <= obj n K0 s' /\
+  (kind = true -> sumn n (alpha s') == sumn n (alpha s)) /\
+  (forall p, untouched n K0 kind p shr s ops -> oalpha n s' p == oalpha n s p).
+Proof. exact run_full. Qed.
+Print Assumptions C08_every_history.
+
+Theorem C08_every_history_core :
+  forall (n : nat) (K0 : nat -> nat -> Q), Ksym K0 ->
+  forall kind : bool, Kok K0 kind ->
+  forall (shr : bool) (ops : list (op Q)) (s : qst),
+  Inv_core n K0 shr s -> wf_runF n K0 kind shr s ops ->
+  let s' := runQ n K0 kind shr s ops in
+  Inv_core n K0 shr s' /\ obj n K0 s <= obj n K0 s' /\
+  (kind = true -> sumn n (alpha s') == sumn n (alpha s)) /\
+  (Inv_perm n s -> Inv_perm n s') /\
+  (forall lin0 lo0 hi0, Inv_data n lin0 lo0 hi0 s -> Inv_data n lin0 lo0 hi0 s') /\
+  (forall p, untouched n K0 kind p shr s ops -> oalpha n s' p == oalpha n s p) /\
+  frozen shr s s'.
+Proof. exact run_core. Qed.
+Print Assumptions C08_every_history_core.
